@@ -8,7 +8,8 @@
     Other concurrent requests on the reply topic are the foreign notifications of the stream. *)
 From WM Require Import Base.Prelude Message.Model Handler.RouterHandle
   ReqReply.Listen ReqReply.Processed ReqReply.ListenProofs ReqReply.ProcessedProofs ReqReply.Compose
-  ReqReply.Caller ReqReply.CallerProofs ReqReply.Marshaler ReqReply.MarshalerProofs.
+  ReqReply.Caller ReqReply.CallerProofs ReqReply.Marshaler ReqReply.MarshalerProofs
+  ReqReply.Concurrent ReqReply.ConcurrentProofs.
 
 (** every reply a caller receives is the final timeout reply or was built from a notification
     carrying the caller's own operation id - for every stream, caller behaviour and schedule *)
@@ -258,6 +259,34 @@ Print Assumptions C18_custom_marshaler_op_id_stamped.
 Print Assumptions C18_custom_modify_applied_after_stamp.
 Print Assumptions C18_custom_json_instance.
 Print Assumptions C18_reply_without_op_id_is_lost.
+(** ** N deliveries running OnCommandProcessed concurrently through one backend (ReqReply/Concurrent.v:
+    one step per access to a reply's metadata map).  Each reply has its own map, so under EVERY
+    interleaving a finished delivery did exactly what the sequential model says for it alone *)
+Theorem C18_deliveries_independent : forall enc cs ins sched t,
+  thr (drun enc false cs ins dinit sched) t = DDone ->
+  outs (drun enc false cs ins dinit sched) t = on_processed enc (cs t) (ins t).
+Proof. exact deliveries_independent. Qed.
+
+(** ... in particular its notification carries ITS command's operation id, has-error flag and error text *)
+Theorem C18_concurrent_reply_has_own_op_id : forall enc cs ins sched t n,
+  thr (drun enc false cs ins dinit sched) t = DDone ->
+  In (PPublish n) (fst (outs (drun enc false cs ins dinit sched) t)) ->
+  n_op n = p_op (ins t) /\ n_haserr n = is_some (p_err (ins t)) /\ n_err n = errtext (p_err (ins t)).
+Proof. exact concurrent_reply_has_own_op_id. Qed.
+
+(** the theorem is sensitive to exactly that: with ONE metadata map shared by the successful replies
+    (variant [shared = true]) delivery A, overtaken between its stamp and its Publish by B's stamp,
+    publishes its reply under B's operation id *)
+Theorem C18_deliveries_independent_refuted_shared_map :
+  exists enc cs ins sched t,
+    thr (drun enc true cs ins dinit sched) t = DDone
+    /\ outs (drun enc true cs ins dinit sched) t <> on_processed enc (cs t) (ins t)
+    /\ exists n, In (PPublish n) (fst (outs (drun enc true cs ins dinit sched) t)) /\ n_op n = p_op (ins 1).
+Proof. exact deliveries_independent_refuted_shared_map. Qed.
+
+Print Assumptions C18_deliveries_independent.
+Print Assumptions C18_concurrent_reply_has_own_op_id.
+Print Assumptions C18_deliveries_independent_refuted_shared_map.
 Print Assumptions C18_only_own_replies.
 Print Assumptions C18_replies_do_not_cross.
 Print Assumptions C18_listener_safe.
